@@ -4,7 +4,7 @@ from __future__ import annotations
 import io
 from concurrent.futures import ThreadPoolExecutor
 
-from .. import env, impl, producer, report, terms
+from .. import env, impl, producer, report, terms, wire
 from .c04 import rdf_norm
 
 HEADER = {"missing-options-row": "F10", "unsupported-version": "F11", "unsupported-stream-type": "F12",
@@ -112,6 +112,23 @@ def main(tier: str) -> int:
                                   f"before raising, the parser yielded something the rows before the offending row do not denote", rp)
                 if len(samples) < 4 and exc and taken[k] == 1 and cls not in [s["class"] for s in samples]:
                     samples.append({"class": cls, "offending_row": rows[-1], "position": len(rows), "exception": exc})
+    # streams without any options row: nothing at all, only empty frames (with and without metadata) -- Tier 1: R1-no-options-row at the end of the stream
+    degenerate = {"zero-bytes": b"", "one-empty-frame": wire.enc_delimited([{"rows": []}]), "three-empty-frames": wire.enc_delimited([{"rows": []}] * 3),
+                  "empty-frames-with-metadata": wire.enc_delimited([{"rows": [], "meta": {"k": b"v"}}, {"rows": []}])}
+    for label, data in degenerate.items():
+        for integ in ("generic", "rdflib"):
+            for entry in ("flat", "grouped", "to_graph"):
+                evaluations += 1
+                per_class["missing-options-row"] = per_class.get("missing-options-row", 0) + 1
+                distinct.add((integ, 0, "no-options-row", label, entry))
+                try:
+                    got = impl.parse(integ, data, entry)
+                    if entry == "grouped":
+                        got = list(got)
+                except Exception:  # noqa: BLE001
+                    continue
+                run.violation({"class": "missing-options-row", "clause": "accepted", "integ": integ, "ptype": 0, "degenerate": label, "parse": entry},
+                              f"a stream without any options row ({label}) was parsed by {integ} {entry} without any exception: {str(got)[:80]}", {"hex": data.hex()})
     missing = [c for c in list(HEADER) + ["entry-id-beyond-size", "reference-beyond-size", "reference-to-unfilled-slot", "datatype-reference-zero",
                                           "datatype-reference-table-disabled", "repeated-term-in-quoted-triple",
                                           "row-kind-forbidden-by-physical-type", "triple-outside-graph"] if c not in per_class]
